@@ -48,6 +48,7 @@ type VM struct {
 	send_chans   []chan int
 	result_chans []chan string
 	recv_chan    chan int
+	done         chan struct{} // closed by Shutdown: the exit path of the workers
 
 	wait_proc int
 
@@ -140,7 +141,13 @@ type SimReport struct {
 
 func (vm *VM) Processor_execute(psc *procbuilder.SimConfig, instruct <-chan int, resp chan<- int, resultChan chan<- string, procId int) {
 	for {
-		switch <-instruct {
+		var cmd int
+		select {
+		case <-vm.done:
+			return
+		case cmd = <-instruct:
+		}
+		switch cmd {
 		case 0:
 			resp <- procId
 		case 1:
@@ -216,6 +223,7 @@ func (vm *VM) Init() error {
 	vm.send_chans = make([]chan int, len(vm.Bmach.Processors))
 	vm.result_chans = make([]chan string, len(vm.Bmach.Processors))
 	vm.recv_chan = make(chan int)
+	vm.done = make(chan struct{})
 
 	vm.wait_proc = 0
 
@@ -298,12 +306,19 @@ func (vm *VM) EmuDriverDispatcher() {
 	// fmt.Println("EmuDriverDispatcher", vm.EmuDrivers)
 	for {
 		select {
+		case <-vm.done:
+			return
 		case cmd := <-vm.cmdChan:
 			for _, ed := range vm.EmuDrivers {
 				ed.PushCommand(cmd)
 			}
 		}
 	}
+}
+
+// Shutdown releases the workers started by Launch_processors (call it once, between steps).
+func (vm *VM) Shutdown() {
+	close(vm.done)
 }
 
 func (vm *VM) Launch_processors(s *simbox.Simbox) error {
